@@ -33,11 +33,14 @@ META = {
     "C06": dict(technique="Lean 4 proof (guarded RL formula of the emitted store; guard always emitted) + translation validation + differential run",
                 text="Theorems eval_rl_store / rl_fallback / rl_exponential / rlStore_guarded: the emitted store evaluates to x + (|g|>delta ? f/g*(exp(g*dt)-1) : dt*f) in every "
                      "interpretation; pin rl_always_guarded (extracted: no generator consults the non-zero shortcut). The linearisation gotranx emits is compared by value with the "
-                     "Lean symbolic derivative (w.r.t. the own state, everything else fixed); steps are compared with the formula at |g| around delta, several delta, dt.",
+                     "Lean symbolic derivative (w.r.t. the own state, everything else fixed); steps are compared with the formula at |g| around delta, several delta, dt. "
+                     "GenValidRL.genGRL_valid: the model's generalized_rush_larsen generator passes checkScheme for every well-formed model without dt/_linearized name clashes "
+                     "(the linearisation reads only names its rate reads: DiffFv.sub_diff); re-evaluated by the driver on every loaded model.",
                 note=TB + "Real-analysis consequences (diff is the derivative, exactness for affine rates, convergence to Euler) are in GotranxProofs/Analysis.lean when present; sympy's diff is assumption A4."),
     "C07": dict(technique="Lean 4 proof (syntactic program equalities on the Impl generators) + differential run",
                 text="Theorems hybrid_empty_eq_euler, hybrid_all_eq_grl, hybrid_foreign_names, hybrid_slotwise: program equalities for every model, sort order, option and subset. "
-                     "On the real code: hybrid body text equals the Euler / GRL body text for empty / full subsets and ignores foreign names; slot by slot bit-equality with the module's own Euler and GRL.",
+                     "On the real code: hybrid body text equals the Euler / GRL body text for empty / full subsets and ignores foreign names; slot by slot bit-equality with the module's own Euler and GRL. "
+                     "GenValidRL.genHybrid_valid: the model's hybrid generator passes checkScheme for every well-formed model and every stiff set.",
                 note=TB + "The Impl generators mirror schemes.py; the tie is the body-text comparison and the validators."),
     "C12": dict(technique="Lean 4 proof (two validated programs for one model/layout agree; progress) + translation validation + differential run",
                 text="Theorem C12.unused_equiv_rhs: two rhs programs (with / without removal) that pass checkRhs for the same model and layout return equal values in every slot for every input; "
